@@ -24,7 +24,7 @@ def run(ctx):
     ]
     ctx.assumptions += ["events are handled one at a time (the scheduler reaches quiescence between two events — in the slow histories quiescence includes being blocked inside SetDest); races between removal and completion are explored by the concurrent stress in the thorough tier only as far as the outcome is order-independent",
                         "Go >= 1.23 timer semantics inside synctest (a deadline already in the past is seen by the first select)"]
-    L.regen(ctx, ["C07"])
+    L.regen(ctx, ["C07", "C13"])
     L.prove(ctx)
     if not L.build_driver(ctx):
         return
